@@ -345,6 +345,75 @@ def cases_of(groups, seed, prefix):
     return cases
 
 
+def preorder(schema, op):
+    """fields of the operation in document order with (is resolver, is an identical same-key copy of an earlier sibling)"""
+    out = []
+
+    def rec(sel, tn, seen):
+        for s in sel:
+            if s["k"] == "f":
+                k = (s["alias"] or s["name"], json.dumps(s["args"], sort_keys=True))
+                out.append((schema.is_resolver(tn, s["name"]), k in seen))
+                seen.add(k)
+                nt = schema.named(tn, s["name"]) if s["name"] != "__typename" else None
+                if nt and s["sel"]:
+                    rec(s["sel"], nt, set())
+            else:
+                rec(s["sel"], s["on"], seen)
+    rec(op["sel"], "Mutation" if op["kind"] == "mutation" else "Query", set())
+    return out
+
+
+def dup_before_resolver(schema, rec):
+    """class "a duplicated plain field EARLIER corrupts a field resolver visited LATER": the reformulated operation has an
+    identical same-key copy of a non-resolver field (raw lane) and a field resolver after it in document order"""
+    if rec["normOnly"]:
+        return False
+    po = preorder(schema, rec["op"])
+    first = next((i for i, (r, d) in enumerate(po) if d and not r), None)
+    return first is not None and any(r for r, _ in po[first + 1:])
+
+
+def choose_res(schema, groups, rng, cap_interesting, cap_other):
+    """from the exhaustive users/categories orbit set: the pairs of the class above first"""
+    ii, oo = [], []
+    for g, v in groups.items():
+        for r in v["vars"].values():
+            (ii if dup_before_resolver(schema, r) else oo).append((g, r))
+    rng.shuffle(ii)
+    rng.shuffle(oo)
+    out = collections.OrderedDict()
+    for g, r in ii[:cap_interesting] + oo[:cap_other]:
+        out.setdefault(g, {"base": groups[g]["base"], "vars": []})["vars"].append(r)
+    return out, len(ii), len(oo)
+
+
+def reuse_cases(schema, groups, rng, seed, max_groups, max_vars):
+    """reuse lane: ONE planned datasource per group is loaded with the variables of base, v1, base, v2, ... (v = the same
+    operation with other argument values, TLC action Revalue); each reuse answer is paired with the answer of a freshly
+    planned datasource for the same variables (trace: fresh = base line, reuse = variant line of the identical
+    operation, so ShapeInv holds for it and ConsistentInv demands equality at every position)."""
+    keys = [g for g, v in groups.items() if v["base"]["kind"] == "query"]
+    rng.shuffle(keys)
+    # operations with a chain of field resolvers first (a skipped middle call is what leaks state)
+    keys.sort(key=lambda g: 0 if "nested-resolver" in op_features(schema, groups[g]["base"]) else 1)
+    cases = []
+    for g in keys[:max_groups]:
+        base = groups[g]["base"]
+        vs = [r["op"] for r in groups[g]["vars"].values()]
+        rng.shuffle(vs)
+        seq = []
+        for v in vs[:max_vars]:
+            seq += [base, v]
+        seq.append(base)
+        for k, o in enumerate(seq):
+            cases.append({"id": "r%s-%d-f" % (g, k), "group": "r" + g, "role": "base", "lane": "raw", "seed": seed, "op": o, "steps": [],
+                          "rgroup": "r" + g, "ownvars": True})
+            cases.append({"id": "r%s-%d-r" % (g, k), "group": "r" + g, "role": "variant", "lane": "reuse", "seed": seed, "op": o,
+                          "plan": "r" + g, "rgroup": "r" + g, "ownvars": True, "steps": [{"a": "Reuse", "p": [], "i": k}]})
+    return cases
+
+
 def probe_cases(seed, plist=None):
     cases = []
     for tag, lane, base, var in (plist if plist is not None else probes()):
@@ -386,11 +455,11 @@ class Store:
 
 
 def replay_obj(case, o, base_case=None, base_obs=None, extra=None):
-    r = {"case": {k: case.get(k) for k in ("id", "lane", "role", "seed", "op", "steps", "probe")},
+    r = {"case": {k: case.get(k) for k in ("id", "lane", "role", "seed", "op", "steps", "probe", "plan", "group", "rgroup", "ownvars")},
          "text": o.get("text"), "sent": o.get("sent"), "vars": o.get("vars"), "stage": o.get("stage"),
          "err": (o.get("err") or "")[:400], "observed": o.get("raw")}
     if base_case is not None:
-        r["base_case"] = {k: base_case.get(k) for k in ("id", "lane", "role", "seed", "op", "steps", "probe")}
+        r["base_case"] = {k: base_case.get(k) for k in ("id", "lane", "role", "seed", "op", "steps", "probe", "plan", "group", "rgroup", "ownvars")}
         r["base_text"] = base_obs.get("text")
         r["base_observed"] = base_obs.get("raw")
     if extra:
@@ -417,11 +486,14 @@ class Batch:
         self.samples = []
         self.accepted = 0
         self.bad = 0
+        self.plan_ids = {}   # reuse lane: group -> ids of all its cases in execution order
 
     def write_cases(self, cases):
         with open(self.cases.path, "wb") as f:
             for c in cases:
                 self.cases.add(c["id"], f.tell())
+                if c.get("rgroup"):
+                    self.plan_ids.setdefault(c["rgroup"], []).append(c["id"])
                 f.write(json.dumps(c, separators=(",", ":")).encode() + b"\n")
                 self.n += 1
                 h = lib.sha([c["op"], c["lane"]])
@@ -435,7 +507,7 @@ class Batch:
         ctx = self.ctx
         ctx.run_bin(self.binary, ["-in", self.cases.path, "-out", self.obs.path, "-sdl", self.sdl_file], timeout=6000)
         # ---- stream the observations: no-oracle checks, trace rows cut into batches at group boundaries
-        dead = set()
+        base_ok = {}   # (group, lane of the base line) -> did the last base line of that lane produce JSON?
         chunks = []
         cur = None
         cur_n = 0
@@ -445,16 +517,16 @@ class Batch:
             nobs += 1
             self.obs.add(o["id"], off)
             self.stages[o["stage"]] += 1
-            gl = o["group"] + "/" + o["lane"]
+            gl = (o["group"], "raw" if o["lane"] == "reuse" else o["lane"])
+            if o["role"] in ("base", "xbase"):
+                base_ok[gl] = o["stage"] == "ok"
             if o["stage"] != "ok":
                 self.go_side(self.cases.get(o["id"]), o)
-                if o["role"] in ("base", "xbase"):
-                    dead.add(gl)
                 continue
-            if gl in dead:
-                continue
+            if not base_ok.get(gl, False):
+                continue   # its base failed before producing JSON (reported above): nothing to compare with
             role = o["role"]
-            if role == "xbase" and (o["group"] + "/raw") in dead:
+            if role == "xbase" and not base_ok.get((o["group"], "raw"), False):
                 role = "base"
             if cur is None or (role == "base" and cur_n >= CHUNK):
                 if cur is not None:
@@ -485,6 +557,8 @@ class Batch:
             if o["stage"] != "invalid":
                 ctx.notes.append("note (no verdict) %s: %s %s for %s" % (c.get("probe"), o["stage"], o["err"][:120], o["text"][:200]))
                 return
+        if o["stage"] == "reuse-text-differs":
+            raise lib.Inconclusive("reuse lane: the operations of one plan group do not print to the same text: %s" % o["text"][:300])
         if o["stage"] == "invalid":
             raise lib.Inconclusive("generator produced an operation gqlparser rejects (%s): %s" % (o["err"][:200], o["text"][:300]))
         if o["stage"] == "panic":
@@ -555,8 +629,12 @@ class Batch:
                         o["text"][:300], (o["raw"] or "")[:300])
                     if rel == "agree" and bo is not None:
                         what += "; base operation: %s; base answer: %s" % (bo["text"][:300], (bo["raw"] or "")[:300])
-                    ctx.violation(key, what, replay_obj(c, o, bc if rel == "agree" else None, bo if rel == "agree" else None,
-                                                        {"relation": rel, "error": e}))
+                    extra = {"relation": rel, "error": e}
+                    if c.get("plan"):
+                        # the answer depends on what the shared datasource was asked before: keep the whole sequence
+                        extra["history"] = [self.cases.get(i) for i in self.plan_ids.get(c["plan"], []) if True]
+                        extra["history"] = extra["history"][:1 + next((k for k, h in enumerate(extra["history"]) if h["id"] == c["id"]), len(extra["history"]))]
+                    ctx.violation(key, what, replay_obj(c, o, bc if rel == "agree" else None, bo if rel == "agree" else None, extra))
         return nrows - bad, bad
 
 
@@ -571,6 +649,18 @@ def do_replay(ctx, binary, sdl_file, schema):
         rp = json.load(f)
     case = rp["case"]
     cases = []
+    if case.get("history"):
+        cases = [dict(h) for h in case["history"]]
+        b = Batch(ctx, schema, binary, sdl_file, "replay")
+        b.write_cases(cases)
+        b.run()
+        for x in cases:
+            o = b.obs.get(x["id"])
+            ctx.log("replayed %s lane=%s stage=%s\n    operation: %s\n    variables: %s\n    answer:    %s %s" % (
+                o["id"], o["lane"], o["stage"], o["text"], json.dumps(o["vars"]), o["raw"], o["err"][:300]))
+        ctx.coverage.update({"traces_validated_against_impl": b.accepted, "evaluations": len(cases), "distinct_nontrivial": 0,
+                             "rule": "replay of one stored reuse-lane sequence", "samples": [], "exhaustive": False})
+        return
     if case.get("base_case"):
         b = dict(case["base_case"])
         b["role"] = "base"
@@ -628,7 +718,19 @@ def run(ctx):
     nsim = 500 if quick else 5000
     g2 = ctx.tlc_must_pass(CORE, "Gen_C20", "Gen_C20_sim.cfg", timeout=2400, deadlock=False, workers=1, simulate=nsim, depth=30,
                            seed=ctx.seed, tag="gen-simulate")
-    sim_groups = group_records(g2.printed)
+    recs2 = g2.printed
+    sim_groups = group_records([r for r in recs2 if r["steps"][0]["a"] != "Revalue"])
+    reuse_groups = group_records([r for r in recs2 if r["steps"][0]["a"] == "Revalue"])
+    # targeted exhaustive sets: (3) duplicates before field resolvers, (4) argument re-valuations over resolver chains
+    g3 = ctx.tlc_must_pass(CORE, "Gen_C20", "Gen_C20_res.cfg", timeout=1500, deadlock=False, workers=8, tag="gen-bfs-duplicate-before-resolver")
+    res_groups = group_records(g3.printed)
+    g4 = ctx.tlc_must_pass(CORE, "Gen_C20", "Gen_C20_reuse.cfg", timeout=1500, deadlock=False, workers=8, tag="gen-bfs-revalue")
+    for g, v in group_records(g4.printed).items():
+        reuse_groups.setdefault(g, v)["vars"].update(v["vars"])
+    res_sel, n_int, n_oth = choose_res(schema, res_groups, rng, 400 if quick else 10 ** 9, 100 if quick else 3000)
+    rcases = reuse_cases(schema, reuse_groups, rng, ctx.seed, 120 if quick else 1500, 3)
+    ctx.log("targeted: duplicate-before-resolver %d pairs (+%d other) of the users/categories orbit set, chosen %d; reuse lane %d groups, %d loads" % (
+        n_int, n_oth, sum(len(v["vars"]) for v in res_sel.values()), len({c["group"] for c in rcases}), len(rcases) // 2))
     if quick:
         bfs_sel = choose(bfs_groups, rng, 250, 6)
         sim_sel = choose(sim_groups, rng, 10 ** 9, 10 ** 9)
@@ -638,12 +740,12 @@ def run(ctx):
     ctx.log("generated: bfs %d bases / %d pairs (chosen %d / %d); simulate %d bases / %d pairs (chosen %d / %d)" % (
         len(bfs_groups), sum(len(v["vars"]) for v in bfs_groups.values()), len(bfs_sel), sum(len(v["vars"]) for v in bfs_sel.values()),
         len(sim_groups), sum(len(v["vars"]) for v in sim_groups.values()), len(sim_sel), sum(len(v["vars"]) for v in sim_sel.values())))
-    g1.printed = g2.printed = None
-    del bfs_groups, sim_groups
+    g1.printed = g2.printed = g3.printed = g4.printed = None
+    del bfs_groups, sim_groups, res_groups, reuse_groups, recs2
     # ---- 3./4./5. replay on the real datasource, no-oracle checks, TLC validation --------------------------------
     gen = Batch(ctx, schema, binary, sdl_file, "gen")
-    gen.write_cases(cases_of(bfs_sel, ctx.seed, "b") + cases_of(sim_sel, ctx.seed, "s"))
-    del bfs_sel, sim_sel
+    gen.write_cases(cases_of(bfs_sel, ctx.seed, "b") + cases_of(sim_sel, ctx.seed, "s") + cases_of(res_sel, ctx.seed, "d") + rcases)
+    del bfs_sel, sim_sel, res_sel, rcases
     gen.run()
     pr = Batch(ctx, schema, binary, sdl_file, "probes")
     pr.write_cases(probe_cases(ctx.seed))
@@ -677,6 +779,7 @@ def run(ctx):
         "argument values come from fixed pools (c20_schema.ARG_POOLS) and are always passed as variables, as the engine's planner does",
         "lane 'norm' applies astnormalization exactly as graphql_datasource.printOperation does before it builds the gRPC datasource; "
         "named fragments, root-level fragments, fragments on the enclosing object type and same-key duplicates are only checked in that lane",
+        "reuse lane: one planned datasource answers a sequence of variable sets (base, v1, base, v2, ...); every answer must agree at every position with the answer of a freshly planned datasource (history independence); queries only",
         "entity fetches follow the federation contract (one fragment per representation type, each selecting __typename)",
         "response key order is not part of the shape (keys are compared as a set, duplicates forbidden)",
     ]
